@@ -381,7 +381,9 @@ def session_snapshot(w, cache):
         if not isinstance(o, tuple(w.classes)): continue
         vals = {}
         for attr, v in (o._vals_ or {}).items():
-            if isinstance(v, core.SetData): vals[attr.name] = (bool(v.is_fully_loaded), frozenset(x._pkval_ if x._pkval_ is not None else id(x) for x in v))
+            if isinstance(v, core.SetData):
+                pk = lambda x: x._pkval_ if x._pkval_ is not None else id(x)
+                vals[attr.name] = (bool(v.is_fully_loaded), frozenset(pk(x) for x in v), frozenset(pk(x) for x in (v.added or ())), frozenset(pk(x) for x in (v.removed or ())))
             elif isinstance(v, core.Entity): vals[attr.name] = ('obj', type(v)._root_.__name__, v._pkval_)
             else: vals[attr.name] = v
         snap[(type(o)._root_.__name__, o._pkval_)] = (o._status_, o._save_pos_, vals)
@@ -400,9 +402,12 @@ def session_diff(before, after):
         for name, v in vals.items():
             if name not in vals2: return 'value %r.%s dropped' % (k, name)
             v2 = vals2[name]
-            if isinstance(v, tuple) and len(v) == 2 and isinstance(v[1], frozenset):
-                if v[0] and v2 != v: return 'collection %r.%s: %r -> %r' % (k, name, sorted(v[1], key=repr), sorted(v2[1], key=repr))
+            if isinstance(v, tuple) and len(v) == 4 and isinstance(v[1], frozenset):
+                if v[0] and v2[:2] != v[:2]: return 'collection %r.%s: %r -> %r' % (k, name, sorted(v[1], key=repr), sorted(v2[1], key=repr))
                 if not v[0] and not v[1] <= v2[1]: return 'collection %r.%s lost items' % (k, name)
+                # the pending link changes (what the next flush writes to the link table / the FK columns) must be what they were
+                if v[2] != v2[2]: return 'pending additions of collection %r.%s: %r -> %r' % (k, name, sorted(v[2], key=repr), sorted(v2[2], key=repr))
+                if v[3] != v2[3]: return 'pending removals of collection %r.%s: %r -> %r' % (k, name, sorted(v[3], key=repr), sorted(v2[3], key=repr))
             elif v != v2: return 'value %r.%s: %r -> %r' % (k, name, v, v2)
     return None
 
@@ -431,9 +436,16 @@ def run_deletes(w, state0, plan):
             return sorted(mid(o) for o in list(cache.objects) if isinstance(o, tuple(w.classes)) and o._status_ in DEL)
         for st in plan:
             err = None; target_missing = False
-            if st[0] in ('load', 'mod'):
+            if st[0] in ('load', 'mod', 'add', 'rem'):
                 try:
-                    if st[0] == 'load':
+                    if st[0] in ('add', 'rem'):
+                        # pending change of a many-to-many collection: obj.coll.add(x) / obj.coll.remove(x), not flushed
+                        try: o = get(st[1]); x = get(st[3])
+                        except NotImplementedError:
+                            unloadable.append(st[1]); o = x = None
+                        if o is None or x is None: target_missing = True
+                        else: getattr(getattr(o, w.names[tuple(st[2])]), 'add' if st[0] == 'add' else 'remove')(x)
+                    elif st[0] == 'load':
                         for i in st[1]:
                             try:
                                 x = get(i)
@@ -500,7 +512,7 @@ def flat_plan(w, state, plan):
     """the sequence of `_delete_` targets a plan amounts to (query deletes fetch in primary-key order = creation order)"""
     out = []
     for st in plan:
-        if st[0] in ('load', 'mod'): out.append([])
+        if st[0] in ('load', 'mod', 'add', 'rem'): out.append([])
         elif st[0] == 'obj': out.append([st[1]] if st[1] < len(w.ents) else [])
         else: out.append(sorted(i for i in st[2] if i < len(w.ents) and w.isa(w.ents[i], st[1])))
     return out
@@ -542,7 +554,24 @@ def _check_history(ctx, w, schema, prog, plan, state0, report):
     req_inside = []        # closures in which one member holds another under a Required reference whose relationship does not cascade
     groups = flat_plan(w, state0, plan)
     model_dels = []
+    model_state0 = None        # the store the deletes start from: state0 with the pending link changes applied
     for st, grp, rec in zip(plan, groups, steps):
+        if rec.get('kind') in ('add', 'rem'):
+            i, key, j = st[1], tuple(st[2]), st[3]
+            if rec['target_missing'] or max(i, j) >= len(state): continue
+            if state[i]['alive'] and state[j]['alive']:
+                if rec['err'] is None:
+                    rkey = w.rev(key)
+                    def upd(so, k, x, add):
+                        return dict(so, colls=[[r, sd, (sorted(set(l) | {x}) if add else [y for y in l if y != x]) if (r, bool(sd)) == k else l] for r, sd, l in so['colls']])
+                    state = list(state)
+                    state[i] = upd(state[i], key, j, st[0] == 'add')
+                    state[j] = upd(state[j], rkey, i, st[0] == 'add')
+                    ctx.count('m2m:pending-%s' % st[0])
+                elif not viol: viol = ('link-change-raised:' + rec['err'], {'step': st})
+            else: ctx.count('m2m:on-deleted-object:%s' % rec['err'])
+            continue
+        if model_state0 is None and st[0] in ('obj', 'query'): model_state0 = state
         if rec.get('kind') == 'mod':
             i = st[1]
             if rec['target_missing'] or i >= len(state): continue
@@ -659,7 +688,12 @@ def _check_history(ctx, w, schema, prog, plan, state0, report):
             viol = ('database-differs-from-prescribed-state', {'database': got, 'prescribed': expect})
     # ---------------- correspondence with the Lean model
     if report:
-        tie(ctx, w, inp, state0, plan, groups, steps, commit_err, got)
+        late = False; seen_del = False
+        for st in plan:
+            if st[0] in ('obj', 'query'): seen_del = True
+            elif st[0] in ('add', 'rem') and seen_del: late = True
+        if late: ctx.count('tie:skipped(link change after a delete)')
+        else: tie(ctx, w, inp, model_state0 if model_state0 is not None else state, plan, groups, steps, commit_err, got)
     return viol
 
 
@@ -807,6 +841,7 @@ WHAT = {
     'bulk-dangling': 'a bulk delete left a reference to a missing row',
     'pending-update-lost': 'an assignment made in the session was not written by the commit',
     'assignment-raised': 'assigning a plain attribute of a live object raised',
+    'link-change-raised': 'adding / removing a live item of a many-to-many collection of a live object raised',
     'commit-failed-after-successful-deletes': 'every delete succeeded but the commit raised',
     'commit-failed': 'an object cascades (one-to-one) to a row that it also references through a Required attribute of a relationship without cascade: the delete succeeds in the session, but the queue deletes the cascade target first and the database refuses the commit (IntegrityError, rolled back)',
     'failed-commit-changed-database': 'a commit that raised changed the database',
@@ -820,6 +855,33 @@ EXPECT = {
 }
 
 # ---------------------------------------------------------------- phases
+
+def m2m_ops(rng, w, state0, plan):
+    """pending (unflushed) removals / additions on many-to-many collections of the delete targets, of what they hold and of
+    anything, inserted BEFORE the first delete: the collection then has `removed` / `added` sets when `_delete_` clears it"""
+    n = len(state0)
+    targets = [st[1] for st in plan if st[0] == 'obj' and st[1] < n]
+    near = sorted(set(q for t in targets for key in w.ent_attrs[state0[t]['ent']] for q in held(state0[t], key)))
+    cur = {i: {tuple([r, bool(sd)]): list(l) for r, sd, l in so['colls']} for i, so in enumerate(state0)}
+    first = next((k for k, st in enumerate(plan) if st[0] in ('obj', 'query')), len(plan))
+    ops = []
+    for _ in range(rng.choice([1, 1, 2, 3])):
+        pool = targets if (targets and rng.random() < 0.6) else (near if (near and rng.random() < 0.5) else list(range(n)))
+        i = rng.choice(pool)
+        keys = [k for k in w.ent_attrs[state0[i]['ent']] if w.side(k)['coll'] and w.side(w.rev(k))['coll']]
+        if not keys: continue
+        key = rng.choice(keys)
+        members = cur[i].get(key, [])
+        t = w.side(w.rev(key))['ent']
+        others = [j for j in range(n) if w.isa(state0[j]['ent'], t) and j not in members]
+        if members and (rng.random() < 0.7 or not others):
+            j = rng.choice(members); ops.append(['rem', i, list(key), j]); cur[i][key] = [x for x in members if x != j]
+            rk = w.rev(key); cur[j][rk] = [x for x in cur[j].get(rk, []) if x != i]
+        elif others:
+            j = rng.choice(others); ops.append(['add', i, list(key), j]); cur[i][key] = members + [j]
+            rk = w.rev(key); cur[j][rk] = cur[j].get(rk, []) + [i]
+    plan[first:first] = ops
+
 
 def gen_plan(rng, w, state0):
     n = len(state0)
@@ -842,10 +904,11 @@ def gen_plan(rng, w, state0):
             pool = near if (near and rng.random() < 0.6) else (targets if (targets and rng.random() < 0.4) else list(range(n)))
             k += 1
             plan.insert(rng.choice([0, 0, 0, rng.randrange(len(plan) + 1)]), ['mod', rng.choice(pool), k])
-        if rng.random() < 0.75:
-            # everything fetched up front: later steps run no query, so nothing is flushed in between and the first assignment
-            # becomes objects_to_save[0]
-            plan.insert(0, ['load', list(range(n))])
+    if rng.random() < 0.5: m2m_ops(rng, w, state0, plan)
+    if any(st[0] in ('mod', 'add', 'rem') for st in plan) and rng.random() < 0.75:
+        # everything fetched up front: later steps run no query, so nothing is flushed in between and the first assignment
+        # becomes objects_to_save[0]
+        plan.insert(0, ['load', list(range(n))])
     return plan
 
 
@@ -872,7 +935,7 @@ def gen_refusal_case(rng):
             if sn in r: r[sn]['ent'] %= nent
     schema = {'nent': nent, 'rels': rels, 'cpk': [rng.random() < 0.3 for _ in range(nent)]}
     prog = [['create', 0, []], ['flush']]
-    nk = 1 if casc_rel['kind'] == 'o2o' else rng.choice([1, 2, 3])
+    nk = 1 if casc_rel['kind'] == 'o2o' else (rng.choice([2, 3]) if casc_rel['kind'] == 'm2m' else rng.choice([1, 2, 3]))
     nd = 1 if block_rel['kind'] == 'o2o' else rng.choice([1, 1, 2])
     def child(e, rel_index, extra):
         vals = [[[rel_index, True], [0] if rels[rel_index]['b']['coll'] else 0]]
@@ -892,8 +955,26 @@ def gen_refusal_case(rng):
     for _ in range(rng.choice([1, 1, 2, 3])):
         k += 1
         plan.insert(rng.choice([0, 0, len(plan) - 1]), ['mod', rng.choice(kids + kids + docs + [0]), k])
+    if casc_rel['kind'] == 'm2m' and rng.random() < 0.8:
+        # an unflushed removal (sometimes followed by re-adding another item) in the collection the refused delete will clear and
+        # restore: from the parent's side or from the item's side
+        x = rng.choice(kids)
+        ops = [['rem', 0, [0, False], x] if rng.random() < 0.6 else ['rem', x, [0, True], 0]]
+        if rng.random() < 0.3:
+            y = rng.choice([q for q in kids if q != x])
+            ops.append(['rem', 0, [0, False], y]); ops.append(['add', 0, [0, False], y])
+        at = next(k for k, st in enumerate(plan) if st[0] == 'obj')
+        plan[at:at] = ops
     if rng.random() < 0.8: plan.insert(0, ['load', list(range(n)), rng.random() < 0.5])
     if rng.random() < 0.3: plan.append(['obj', rng.choice(kids + docs)])
+    if rng.random() < 0.5:
+        # the other name order: the parent's entity sorts AFTER the others (which side `_calc_modified_m2m` collects the pairs from)
+        f = lambda e: nent - 1 - e
+        for r in rels:
+            for sn in ('a', 'b'):
+                if sn in r: r[sn]['ent'] = f(r[sn]['ent'])
+        schema['cpk'] = schema['cpk'][::-1]
+        prog = [[op[0], f(op[1]), op[2]] if op[0] == 'create' else op for op in prog]
     return schema, prog, plan
 
 
